@@ -108,6 +108,11 @@ ITER = [
     ("mapentries", "for x in entries c do append(r, x) end"),
     ("mappairs", "for [k, v] in entries c do append(r, [v, k]) end"),
     ("string", "for x in c do append(r, x) end"),
+    # a loop visits the collection's CURRENT elements: loop, change, loop again
+    ("set-seq", "for x in c do append(r, x) end; remove(c, y); append(r, 'mid'); for x in c do append(r, x) end; "
+                "append(c, z); append(r, 'end'); for x in c do append(r, x) end; append(r, [x for x in c])"),
+    ("map-seq", "for x in keys c do append(r, x) end; remove(c, y); append(r, 'mid'); for x in keys c do append(r, x) end; "
+                "c[z] = 9; append(r, 'end'); for x in keys c do append(r, x) end; append(r, [x for x in keys c])"),
 ]
 
 # (name, collection kinds, comprehension, explicit loop)   both leave their result in `r`
@@ -296,6 +301,26 @@ def run_iter(ctx, cell):
         xs = small(ctx, "x", n)
         coll = vset([vint(x) for x in xs])
         exp = [vint(x) for x in tdsl.sorted_distinct(xs)]
+    elif name in ("set-seq", "map-seq"):
+        if n == 3:
+            return ["skip"]
+        n = n + 1
+        xs = [int(x) for x in small(ctx, "x", n)]
+        y = xs[ctx.choice("y", n)]
+        z = int(small(ctx, "z", 1)[0])
+        coll = vset([vint(x) for x in xs]) if name == "set-seq" else vmap([(vint(x), vint(1)) for x in xs])
+        s1 = sorted(set(xs))
+        s2 = sorted(set(xs) - {y})
+        s3 = sorted(set(s2) | {z})
+        exp = ([vint(x) for x in s1] + [vstr("mid")] + [vint(x) for x in s2] + [vstr("end")] + [vint(x) for x in s3]
+               + [vlist([vint(x) for x in s3])])
+        out = run_ckl("def r = []; %s; r" % text, {"c": coll, "y": vint(y), "z": vint(z)})
+        detail = lambda: {"elements": xs, "removed": y, "added": z, "got": ctx.plain(out), "expected": ctx.plain(vlist(exp))}
+        if out.kind != "ok":
+            ctx.fail("%s:%s:%s" % (key, out.kind, out.hostname() or "runtime-error"), detail)
+            return out
+        ctx.check(out.value == vlist(exp), key + ":wrong-visiting-order", detail)
+        return out
     elif name == "string":
         s = ctx.str("s", n)
         coll = vstr(s)
